@@ -11,6 +11,7 @@ import math
 import numpy as np
 
 from ..core import import_library
+from ..ref import terms as RT
 from ..gen import fuzzysets as F
 from ..probe import Probe, Reach
 
@@ -164,7 +165,8 @@ class IntegralMonitor:
             g = float(got[j])
             empty = not any(m > 0 for m in mu)
             ctx.hit(f"piece:{kind}:{'empty-set' if empty else 'tie' if (e_lo != e_hi and not math.isnan(e)) else 'plain'}")
-            if not empty and sum(1 for m in mu if m == max(mu)) >= 2:
+            top = max(mu) if mu else 0.0
+            if not empty and sum(1 for m in mu if m == top) >= 2:
                 ctx.hit(f"piece:{kind}:maximum attained at several sample points")
             if math.isnan(e) != math.isnan(g):
                 ctx.violation(f"{kind}: NaN result does not coincide with an all-zero sampled membership", dict(case, row=j, all_zero=empty), e, g)
@@ -218,6 +220,16 @@ def run(ctx):
             spec = F.fuzzy_set(rnd, d=rnd.choice([1, 3]))
             r = rnd.choice(F.RESOLUTIONS) if i % 9 else F.RESOLUTIONS[(i // 9) % len(F.RESOLUTIONS)]
             lo, hi = spec["minimum"], spec["maximum"]
+            if i % 5 == 2 and len(spec["activated"]) >= 2:
+                # different terms that happen to carry one name (unnamed terms, the `low` of two variables): the set is still the
+                # set of its own terms; the common Mamdani operators included
+                for a in spec["activated"]:
+                    a["term"]["name"] = rnd.choice(["", "low"])
+                if rnd.random() < 0.6:
+                    spec["aggregation"] = "Maximum"
+                    for a in spec["activated"]:
+                        a["implication"] = "Minimum"
+                ctx.hit("event:different terms of the set carry the same name")
             agg = F.build_set(fl, spec)
             res = {}
             for k in INTEGRAL:
@@ -284,7 +296,7 @@ def run(ctx):
                         dz.defuzzify(agg, spec["minimum"], spec["maximum"])
                     except Exception:
                         pass
-                what = rnd.choice(["resolution", "configure", "degrees", "range"])
+                what = rnd.choice(["resolution", "configure", "degrees", "range", "parameter", "parameter"])
                 for dz in pool.values():
                     if what == "resolution":
                         dz.resolution = rnd.choice(F.RESOLUTIONS)
@@ -295,12 +307,33 @@ def run(ctx):
                         a.degree = rnd.choice([0.0, 1.0, rnd.random()])
                 elif what == "range":
                     spec = dict(spec, maximum=spec["maximum"] + 0.5)
+                elif what == "parameter":
+                    # a term of the set is tuned a little (less than its printed text shows) or more
+                    for a in agg.terms:
+                        names = RT.ATTRS.get(type(a.term).__name__)
+                        if names and rnd.random() < 0.7:
+                            attr = rnd.choice(names)
+                            step = rnd.choice([1e-4, 3e-4, -2e-4, 0.05])
+                            if math.isfinite(getattr(a.term, attr)):
+                                setattr(a.term, attr, getattr(a.term, attr) + step)
+                        if rnd.random() < 0.3:
+                            a.term.height = rnd.choice([1.0, 0.9997, 0.5])
                 ctx.hit(f"event:reuse after {what} change")
         # a flat set over the whole range at an even resolution: every point is a maximum and two sample points halve the area equally
         for i, rnd in ctx.cases("plateau", 4):
             t = fl.Rectangle("flat", -1.0, 3.0, [1.0, 0.5][i % 2])
             for k in INTEGRAL:
                 getattr(fl, k)([10, 4][i // 2]).defuzzify(t, -1.0, 3.0)
+        # resolutions of several thousand (block-wise sampling): plateaus and twin peaks across the range
+        for i, rnd in ctx.cases("high resolution", ctx.scale(2, 24)):
+            r = rnd.choice([4097, 5000, 8193, 10000] if not ctx.thorough else [4097, 5000, 8193, 10000, 16385, 20000, 40000])
+            t = [fl.Trapezoid("p", 0.0, 2.0, 8.0, 10.0), fl.Aggregated("twin", 0.0, 10.0, fl.Maximum(), [fl.Activated(fl.Triangle("a", 0.0, 1.0, 2.0), 0.5, fl.Minimum()), fl.Activated(fl.Triangle("b", 7.0, 8.5, 10.0), 0.5, fl.Minimum())]), fl.Rectangle("r", 1.0, 9.5, 0.5)][i % 3]
+            for k in INTEGRAL:
+                try:
+                    getattr(fl, k)(r).defuzzify(t, 0.0, 10.0)
+                except Exception:
+                    pass
+            ctx.hit("workload:resolution above 4096")
         # plain terms given directly, as the unit tests do
         for i, rnd in ctx.cases("plain", ctx.scale(40, 800)):
             t = F.G.build_term(fl, F.G.shape_term(rnd, "t", -1.0, 1.0, kind=rnd.choice(["Triangle", "Trapezoid", "Gaussian", "Rectangle", "Bell"])))
@@ -347,7 +380,7 @@ def run(ctx):
         ctx.require(f"piece:{k}:tie")
     for k in ("MeanOfMaximum", "SmallestOfMaximum", "LargestOfMaximum"):
         ctx.require(f"piece:{k}:maximum attained at several sample points")
-    ctx.require("law:SOM<=MOM<=LOM", "law:batch==per-set", "law:centroid-translation", "resolution:1", "resolution:1000", "event:reuse after resolution change", "event:reuse after degrees change")
+    ctx.require("law:SOM<=MOM<=LOM", "law:batch==per-set", "law:centroid-translation", "resolution:1", "resolution:1000", "event:reuse after resolution change", "event:reuse after degrees change", "event:reuse after parameter change", "event:different terms of the set carry the same name", "workload:resolution above 4096")
 
 
 def has_jump(spec):
